@@ -171,6 +171,21 @@ CLAIMED["C08"] = dict(
     technique="Coq proof (non-specific, all inputs) + kernel-checked exhaustive sweep (full/semi, stated bound) + in-Coq spec evaluation on the implementation's output",
     design="5/C08")
 
+CLAIMED["C09"] = dict(
+    text=("Models of read_fasta_maxquant (line loop, rstrip, id parsing, target/decoy/concat, special-residue swap), the peptide-to-"
+          "protein map (per-protein de-duplication, merge over files and parameter sets), hashed non-specific lookup, iBAQ peptide "
+          "numbers and the map file. Theorems for every digestion function and record list: map[pep] = the proteins whose digestion "
+          "yields pep, in database order, each once for distinct identifiers; the decoy record is prefix+id with the reversed sequence "
+          "whose special residues are swapped with their predecessors (a permutation of the residues); the non-specific lookup returns, "
+          "sorted, exactly the proteins whose sequence contains the peptide; the iBAQ number = number of distinct peptides of the "
+          "protein's digestion. Correspondence on generated FASTA text (wrapping, CRLF, blank lines), 1-2 files x 1-3 parameter sets "
+          "with several proteases, target and target+decoy, special residues KR/none, hashed lookups, iBAQ numbers, map file round trip."),
+    note=COMMON_NOTE + "Text decoding/universal newlines and csv are the runtime's (lines obtained with Python's own open()); the "
+         "merge over several parameter sets and read_fasta's line loop are tied by correspondence only (no theorem); identifiers "
+         "distinct, without ';'. Axioms: none.",
+    technique="Coq proof over association-list model (equational map spec, counting via NoDup permutations) + file-level differential correspondence",
+    design="5/C09")
+
 ALL = [f"C{i:02d}" for i in range(1, 21)]
 
 
